@@ -109,13 +109,20 @@ fn fw_timestamptz() {
 fn fw_decimal() {
     let scale: u32 = kani::any();
     kani::assume(scale <= 28);
-    let x = rust_decimal::Decimal::from_parts(kani::any(), kani::any(), kani::any(), kani::any(), scale);
+    let x = rust_decimal::Decimal::from_parts(
+        kani::any(),
+        kani::any(),
+        kani::any(),
+        kani::any(),
+        scale,
+    );
     let mut buf: Vec<u8> = Vec::new();
     x.encode(&mut buf);
     assert!(buf.len() == <rust_decimal::Decimal as PrimitiveFixedWidthEncode>::WIDTH);
     let mut rd: &[u8] = &buf[..];
     let y = <rust_decimal::Decimal as PrimitiveFixedWidthEncode>::decode(&mut rd);
-    // compared by representation (Decimal's == rescales both sides: same value, far costlier to check)
+    // compared by representation (Decimal's == rescales both sides: same value, far costlier to
+    // check)
     assert!(y.serialize() == x.serialize());
 }
 /// Interval values with a month/day part only (what SQL literals can build).
@@ -134,9 +141,9 @@ fn fw_interval_subday() {
 
 // ---------------------------------------------------------------- U-varint (C06): RLE run lengths
 
-/// decode_u32_slice(encode_32(v) ++ rest) == (v, |encode_32(v)|) for every u32; every read in bounds.
-/// encode_32's loop runs at most 5 times (u32 = 5 groups of 7 bits): unwind 6 with unwinding assertions
-/// is complete, not a bound on the input.
+/// decode_u32_slice(encode_32(v) ++ rest) == (v, |encode_32(v)|) for every u32; every read in
+/// bounds. encode_32's loop runs at most 5 times (u32 = 5 groups of 7 bits): unwind 6 with
+/// unwinding assertions is complete, not a bound on the input.
 #[kani::proof]
 #[kani::unwind(6)]
 fn varint_roundtrip() {
